@@ -87,7 +87,7 @@ pub struct Invocation {
 
 impl Invocation {
     fn cfg(&self) -> Cfg {
-        Cfg { width: self.column.unwrap_or(80), tab: self.tab.unwrap_or(2), reorder: self.reorder }
+        Cfg { width: self.column.unwrap_or(80), tab: self.tab.unwrap_or(2), reorder: self.reorder, blank: 2 }
     }
 }
 
@@ -123,6 +123,24 @@ const UNFORMATTED: &[&str] = &[
 
 const ERRONEOUS: &[&str] = &["#let MARK{n} = (\n", "#f(MARK{n}\n", "$ MARK{n} \n", "#{ let MARK{n} = }\n", "*unclosed MARK{n}\n"];
 
+/// File and directory names are kept as `String`s in the model; the private-use characters U+E080..U+E0FF
+/// stand for the single raw bytes 0x80..0xFF, so a name can be one that is not valid UTF-8 (legal on Unix:
+/// Latin-1 `caf\xE9.typ`). Every path that reaches the file system or the command line goes through here.
+fn osp(s: &str) -> PathBuf {
+    use std::os::unix::ffi::OsStringExt;
+    let mut b: Vec<u8> = vec![];
+    for ch in s.chars() {
+        let c = ch as u32;
+        if (0xE080..=0xE0FF).contains(&c) {
+            b.push((c - 0xE000) as u8);
+        } else {
+            let mut buf = [0u8; 4];
+            b.extend_from_slice(ch.encode_utf8(&mut buf).as_bytes());
+        }
+    }
+    PathBuf::from(std::ffi::OsString::from_vec(b))
+}
+
 fn fill(t: &str, n: usize) -> String {
     t.replace("{n}", &n.to_string())
 }
@@ -156,6 +174,43 @@ fn chain_doc(t: &mut Tape, column: usize) -> String {
     format!("#{{\n  {a}.{b}.{c}(dddddd, eeeeee)\n}}\n")
 }
 
+/// a document larger than the buffers an I/O layer typically reads in (8 KiB, 64 KiB) with multi-byte
+/// characters all over it, at a tape-chosen byte alignment: a front-end that decodes its input piecewise,
+/// truncates it, or limits its size shows here (seeded change C16-4)
+fn big_doc(t: &mut Tape, env: &Env, n: usize, erroneous: bool) -> String {
+    let target = match t.weighted(&[3, 2, 1]) {
+        0 => t.range(8_200, 20_000),
+        1 => t.range(65_600, 140_000),
+        _ => t.range(140_000, 300_000),
+    };
+    let mut s = "x".repeat(t.below(4));
+    s.push_str(&format!(" #let MARK{n}  = (1,2)\n"));
+    const LINES: &[&str] = &[
+        "Caf\u{e9} na\u{ef}ve \u{2014} \u{201c}quoted\u{201d} \u{65e5}\u{672c}\u{8a9e}\u{306e}\u{6587} and \u{1f600}\u{1f600}\u{1f600} emoji, \u{3b1}\u{3b2}\u{3b3} \u{5d0}\u{5d1}\u{5d2}.\n",
+        "#let   \u{3b4}x = f( \"\u{1f680}\u{1f680}\",  [\u{4e2d}\u{6587}] ,2 )\n",
+        "$ \u{3b1} + \u{3b2}  = sum_(i=0)^n \u{1d465}_i $\n",
+        "\u{1f600}\u{1f601}\u{1f602}\u{1f603}\u{1f604}\u{1f605}\u{1f606}\u{1f607}\u{1f608}\u{1f609}\u{1f60a}\u{1f60b}\u{1f60c}\u{1f60d}\u{1f60e}\u{1f60f}\n",
+    ];
+    let c = env.corpus;
+    while s.len() < target {
+        match t.weighted(&[3, 2]) {
+            0 => s.push_str(t.pick(LINES)),
+            _ => {
+                let it = &c.items[t.pick(&c.wf_snips)];
+                if it.text.len() < 4_000 {
+                    s.push_str(&it.text);
+                    s.push_str("\n\n");
+                }
+            }
+        }
+        // an exhausted tape picks the first alternative forever: still terminates, still multi-byte
+    }
+    if erroneous {
+        s.push_str("#(\u{1f600}\n");
+    }
+    s
+}
+
 fn gen_content(t: &mut Tape, env: &Env, n: usize, column: usize) -> (Content, &'static str) {
     let (c, class) = gen_content_base(t, env, n, column);
     // spellings that differ from the formatted text only in line ends / final newline / trailing blanks
@@ -171,7 +226,11 @@ fn gen_content(t: &mut Tape, env: &Env, n: usize, column: usize) -> (Content, &'
 }
 
 fn gen_content_base(t: &mut Tape, env: &Env, n: usize, column: usize) -> (Content, &'static str) {
-    match t.weighted(&[8, 5, 3, 1, 2, 2, 4, 3]) {
+    match t.weighted(&[8, 5, 3, 1, 2, 2, 4, 3, 1]) {
+        8 => {
+            let err = t.chance(64);
+            (Content::Text(big_doc(t, env, n, err)), if err { "big(8k..300k,multi-byte)+erroneous" } else { "big(8k..300k,multi-byte)" })
+        }
         0 => (Content::Text(fill(t.pick(UNFORMATTED), n)), "unformatted"),
         1 => {
             // already formatted for the default configuration
@@ -210,9 +269,9 @@ fn gen_content_base(t: &mut Tape, env: &Env, n: usize, column: usize) -> (Conten
 
 const FILE_NAMES: &[&str] = &[
     "a.typ", "b.typ", "main.typ", "c d.typ", "ü.typ", "x.TYP", "y.typ.bak", "notes.txt", "noext", ".hidden.typ", "z.typ", "typ",
-    "w.typ", "v.typ",
+    "w.typ", "v.typ", "caf\u{e0e9}.typ", "\u{e0ff}\u{e0fe}.typ", "n\u{e0e9}.txt",
 ];
-const DIR_NAMES: &[&str] = &["sub", "deep", ".git", ".cache", "d.typ", "chapters", "x y"];
+const DIR_NAMES: &[&str] = &["sub", "deep", ".git", ".cache", "d.typ", "chapters", "x y", "r\u{e0e9}p"];
 const ROOT_NAMES: &[&str] = &["proj", "proj", ".proj", "my proj", "r.typ", ".x"];
 
 fn gen_tree(t: &mut Tape, env: &Env, st: &mut Stats, column: usize) -> Tree {
@@ -250,6 +309,7 @@ fn gen_tree(t: &mut Tape, env: &Env, st: &mut Stats, column: usize) -> Tree {
         }
         let (content, class) = gen_content(t, env, n, column);
         st.label(&format!("file:{class}"));
+        st.label_if(p.chars().any(|c| (0xE080..=0xE0FF).contains(&(c as u32))), "file:name-or-directory-not-utf8");
         let immutable = t.chance(16);
         st.label_if(immutable, "file:immutable");
         entries.push(Entry { path: p, kind: Kind::File { content, immutable } });
@@ -286,7 +346,7 @@ fn gen_tree(t: &mut Tape, env: &Env, st: &mut Stats, column: usize) -> Tree {
     Tree { root_name, entries, outside }
 }
 
-fn gen_invocation(t: &mut Tape, tree: &Tree, which: CliWhich, column: usize, st: &mut Stats) -> Invocation {
+fn gen_invocation(t: &mut Tape, env: &Env, tree: &Tree, which: CliWhich, column: usize, st: &mut Stats) -> Invocation {
     let files: Vec<String> = tree.entries.iter().filter(|e| !matches!(e.kind, Kind::Dir)).map(|e| e.path.clone()).collect();
     let dirs: Vec<String> = tree.entries.iter().filter(|e| matches!(e.kind, Kind::Dir)).map(|e| e.path.clone()).collect();
     if which == CliWhich::C16 && t.chance(40) {
@@ -345,11 +405,16 @@ fn gen_invocation(t: &mut Tape, tree: &Tree, which: CliWhich, column: usize, st:
             Shape::Files(v)
         }
         1 => {
-            let s = match t.below(4) {
+            let s = match t.weighted(&[4, 4, 4, 4, 1]) {
                 0 => fill(t.pick(UNFORMATTED), 99),
                 1 => fill(t.pick(ERRONEOUS), 99),
                 2 => "#let MARK99 = 1".to_string(),
-                _ => option_sensitive(t, 99, column),
+                3 => option_sensitive(t, 99, column),
+                _ => {
+                    st.label("stdin:big(8k..300k,multi-byte)");
+                    let err = t.chance(64);
+                    big_doc(t, env, 99, err)
+                }
             };
             Shape::Stdin(s)
         }
@@ -446,7 +511,7 @@ fn snapshot(root: &Path, tree: &Tree) -> Snapshot {
     }
     for e in &tree.entries {
         if let Kind::File { .. } = e.kind {
-            let p = root.join(&e.path);
+            let p = root.join(osp(&e.path));
             let bytes = std::fs::read(&p).unwrap_or_default();
             let mt = std::fs::symlink_metadata(&p).map(|m| filetime::FileTime::from_last_modification_time(&m)).unwrap_or(filetime::FileTime::zero());
             files.insert(e.path.clone(), (bytes, mt));
@@ -481,11 +546,11 @@ impl Drop for Materialised {
 fn materialise(tree: &Tree, env: &Env, id: u64) -> std::io::Result<Materialised> {
     let base = env.scratch.join(format!("case-{id:016x}"));
     let _ = std::fs::remove_dir_all(&base);
-    let root = base.join(&tree.root_name);
+    let root = base.join(osp(&tree.root_name));
     std::fs::create_dir_all(&root)?;
     let mut m = Materialised { base, root: root.clone(), immutable: vec![], immutable_supported: true };
     for e in &tree.entries {
-        let p = root.join(&e.path);
+        let p = root.join(osp(&e.path));
         if let Some(parent) = p.parent() {
             std::fs::create_dir_all(parent)?;
         }
@@ -506,8 +571,8 @@ fn materialise(tree: &Tree, env: &Env, id: u64) -> std::io::Result<Materialised>
     }
     for e in &tree.entries {
         if let Kind::Symlink { target } = &e.kind {
-            let abs = if let Some(o) = target.strip_prefix("outside/") { m.base.join("outside").join(o) } else { root.join(target) };
-            let _ = std::os::unix::fs::symlink(abs, root.join(&e.path));
+            let abs = if let Some(o) = target.strip_prefix("outside/") { m.base.join("outside").join(o) } else { root.join(osp(target)) };
+            let _ = std::os::unix::fs::symlink(abs, root.join(osp(&e.path)));
         }
     }
     Ok(m_finish(m, tree))
@@ -517,7 +582,7 @@ fn m_finish(mut m: Materialised, tree: &Tree) -> Materialised {
     // fixed mtimes first, then immutability
     for e in &tree.entries {
         if let Kind::File { immutable, .. } = &e.kind {
-            let p = m.root.join(&e.path);
+            let p = m.root.join(osp(&e.path));
             let _ = filetime::set_file_mtime(&p, fixed_mtime());
             if *immutable {
                 if set_immutable(&p, true) {
@@ -537,7 +602,7 @@ fn reset_mtimes(m: &Materialised, tree: &Tree) {
     }
     for e in &tree.entries {
         if let Kind::File { immutable, .. } = &e.kind {
-            let p = m.root.join(&e.path);
+            let p = m.root.join(osp(&e.path));
             let imm = *immutable && m.immutable.contains(&p);
             if imm {
                 set_immutable(&p, false);
@@ -556,38 +621,38 @@ struct RunOut {
     stderr: Vec<u8>,
 }
 
-fn path_arg(inv: &Invocation, m: &Materialised, tree: &Tree, rel: &str) -> String {
+fn path_arg(inv: &Invocation, m: &Materialised, tree: &Tree, rel: &str) -> std::ffi::OsString {
     match inv.addressing {
         0 => {
             if rel.is_empty() {
-                ".".to_string()
+                ".".into()
             } else {
-                rel.to_string()
+                osp(rel).into_os_string()
             }
         }
         1 => {
             if rel.is_empty() {
-                tree.root_name.clone()
+                osp(&tree.root_name).into_os_string()
             } else {
-                format!("{}/{rel}", tree.root_name)
+                osp(&format!("{}/{rel}", tree.root_name)).into_os_string()
             }
         }
-        _ => m.root.join(rel).display().to_string(),
+        _ => m.root.join(osp(rel)).into_os_string(),
     }
 }
 
 fn run_cli(cli: &Path, inv: &Invocation, m: &Materialised, tree: &Tree) -> std::io::Result<RunOut> {
-    let mut flags: Vec<String> = vec![];
+    let mut flags: Vec<std::ffi::OsString> = vec![];
     if inv.check {
         flags.push("--check".into());
     }
     if let Some(c) = inv.column {
         flags.push("-c".into());
-        flags.push(c.to_string());
+        flags.push(c.to_string().into());
     }
     if let Some(t) = inv.tab {
         flags.push("-t".into());
-        flags.push(t.to_string());
+        flags.push(t.to_string().into());
     }
     if inv.reorder {
         flags.push("--reorder-import-items".into());
@@ -597,7 +662,7 @@ fn run_cli(cli: &Path, inv: &Invocation, m: &Materialised, tree: &Tree) -> std::
         2 => flags.push("-v".into()),
         _ => {}
     }
-    let mut args: Vec<String> = vec![];
+    let mut args: Vec<std::ffi::OsString> = vec![];
     let mut cwd = match inv.addressing {
         1 => m.base.clone(),
         _ => m.root.clone(),
@@ -605,7 +670,7 @@ fn run_cli(cli: &Path, inv: &Invocation, m: &Materialised, tree: &Tree) -> std::
     let mut stdin_data: Option<Vec<u8>> = None;
     match &inv.shape {
         Shape::Files(fs) => {
-            let mut pos: Vec<String> = fs.iter().map(|f| path_arg(inv, m, tree, f)).collect();
+            let mut pos: Vec<std::ffi::OsString> = fs.iter().map(|f| path_arg(inv, m, tree, f)).collect();
             if inv.inplace {
                 flags.push("-i".into());
             }
@@ -622,7 +687,7 @@ fn run_cli(cli: &Path, inv: &Invocation, m: &Materialised, tree: &Tree) -> std::
             args.append(&mut flags);
         }
         Shape::FormatAll(dir) => {
-            let mut sub = vec!["format-all".to_string()];
+            let mut sub: Vec<std::ffi::OsString> = vec!["format-all".into()];
             match dir {
                 None => cwd = m.root.clone(),
                 Some(d) => sub.push(path_arg(inv, m, tree, d)),
@@ -910,7 +975,7 @@ impl Prop for CliProp {
         };
         let tree = gen_tree(t, env, st, column);
         let n = 1 + t.weighted(&[4, 3, 1]);
-        let history = (0..n).map(|_| gen_invocation(t, &tree, self.which, column, st)).collect();
+        let history = (0..n).map(|_| gen_invocation(t, env, &tree, self.which, column, st)).collect();
         Some(CliCase { tree, history })
     }
 
@@ -930,7 +995,7 @@ impl Prop for CliProp {
                 // the width-only convenience function, called repeatedly in one thread
                 for (j, (src, w)) in calls.iter().enumerate() {
                     let want = if syn::wf(src) {
-                        match env.f.format(src, &Cfg { width: *w, tab: 2, reorder: false }) {
+                        match env.f.format(src, &Cfg { width: *w, tab: 2, reorder: false, blank: 2 }) {
                             Fmt::Ok(o) => o,
                             _ => return Verdict::skip("deferred_to_C05:panic"),
                         }
